@@ -213,6 +213,22 @@ Definition file_rows (f : file) : list srow :=
 
 Definition desc_rows (fs : list file) : list srow := flat_map file_rows fs.
 
+(** ** The gRPC service descriptors of the generated Go code ([grpc.ServiceDesc]): service name,
+    the .proto file named in its metadata, and per method (name, request type the handler
+    decodes, client streaming, server streaming) - and the same table projected from the file
+    descriptors *)
+Record gsvc := mkGSvc { g_name : string; g_file : string; g_methods : list (string * string * bool * bool) }.
+
+#[export] Instance EqDec_gsvc : EqDec gsvc.
+Proof. intros x y. unfold EqDec in *. decide equality; apply eq_dec. Defined.
+
+Definition grpc_proj (fs : list file) : list gsvc :=
+  flat_map (fun f => map (fun s => mkGSvc (s_full s) (fl_name f)
+                                     (map (fun md => (md_name md,
+                                                      (if md_cs md || md_ss md then EmptyString else undot (md_in md)),
+                                                      md_cs md, md_ss md)) (s_methods s)))
+                         (fl_services f)) fs.
+
 (** ** The wire-relevant projection of the dependency messages (Coin, PageRequest, Any, ...)
     that are generated by other repositories: name, number, kind, label, type *)
 Definition wire_proj (fs : list file) : list (string * list (N * N * N * string)) :=
